@@ -40,7 +40,8 @@ EXPLANATION = (
     "carry StatusCode.BAD_REQUEST = 59; the uploads-disabled exit carries 50 and precedes "
     "parsing. (V4) The three length comparisons resolve to the single literal 1024 and to "
     "the threshold `line > 1022 bytes`. Acceptance of every grammatical URL is not decided. "
-    "(V5) The request line is located independently of read boundaries (the C07.S3 rule set on the server's data_received)."
+    "(V5) The request line is located independently of read boundaries (the C07.S3 rule set on the server's data_received). "
+    "(V6) the PyOpenSSL pump hands every decrypted record to the protocol and keeps reading until the engine is empty (C07.S4)."
 )
 
 
